@@ -37,7 +37,7 @@ import (
 type Scenario struct {
 	Transport  string `json:"transport"` // udp | tcp
 	Op         string `json:"op"`        // get | post-bw | post-big | observe | cancelobs | ping | write-con | write-non | write-con-bw | write-non-bw (one-way, body of several blocks)
-	Peer       string `json:"peer"`      // silent | ack | garbage | blocks | stall | close
+	Peer       string `json:"peer"`      // silent | ack | garbage | blocks | stall | close | empty (answers with Empty messages)
 	Blocks     int    `json:"blocks"`
 	Interrupt  string `json:"interrupt"` // cancel | deadline | close | peerclose
 	Pre        bool   `json:"pre"`       // the context is already cancelled / the connection already closed when the call is made
@@ -385,6 +385,15 @@ func Exec(t *testing.T, sc Scenario, r *evid.Run) *evid.Failure {
 					} else {
 						w.ToLib(refcodec.Msg{Code: 69, Token: []byte{0x66, 0x66}, Payload: []byte("unrelated")})
 					}
+				case "empty":
+					// an Empty message (code 0.00): on a stream RFC 8323 3.4 says it is to be ignored (some
+					// peers use it as a keep-alive), on a datagram transport it is a CoAP ping
+					if w.Datagram() {
+						nextMID++
+						w.ToLib(refcodec.Msg{Type: peer.CON, MID: nextMID & 0xffff})
+					} else {
+						w.ToLib(refcodec.Msg{})
+					}
 				case "blocks":
 					if b1, ok := peer.FindOpt(m, 27); ok && blocksLeft > 0 && m.Code >= 1 && m.Code <= 4 {
 						blocksLeft--
@@ -564,7 +573,7 @@ func gen(t *rapid.T) Scenario {
 	sc.Neighbour = sc.Transport == "udp" && rapid.IntRange(0, 2).Draw(t, "neighbour") == 0
 	sc.LeakProbe = sc.Queued == "" && rapid.IntRange(0, 3).Draw(t, "leakprobe") == 0
 	sc.Wrapped = sc.Queued == "" && !sc.LeakProbe && sc.Transport == "udp" && rapid.IntRange(0, 4).Draw(t, "wrapped") == 0
-	peers := []string{"silent", "silent", "ack", "garbage", "blocks"}
+	peers := []string{"silent", "silent", "ack", "garbage", "blocks", "empty"}
 	if sc.Transport == "tcp" {
 		peers = append(peers, "stall", "close")
 	}
@@ -598,7 +607,7 @@ func TestCheck(t *testing.T) {
 	engines = append(engines, realEngine())
 	engines = append(engines, udpsrv.Engine(r, []string{"closed"}, 8, 200))
 	r.Main(evid.Meta{
-		Rule:        "interrupt: a client connection (datagram / stream) in a synctest bubble runs one blocking operation (GET, block-wise POST, large POST, observe registration, observation cancel (from the application's goroutine and from inside the observe callback), ping, confirmable / non-confirmable one-way write with a small body or one that needs several blocks), optionally queued behind the parallel-request limiter or NSTART, against a scripted peer (silent, ACK only, unrelated traffic, first j blocks then silence, stops reading, closes); quiescence establishes that the call is blocked; then the interruption (context cancel, context deadline, local Close from 1-4 goroutines, peer close), before or during the call; after 5 virtual seconds and one housekeeping tick the call must have returned with an error; then Close (twice, concurrently): returns, done signal closed, every on-close callback ran exactly once (the first one registers 0-3 further callbacks while it runs, which must not disturb the others), other calls on the connection ended, no library goroutine left blocked. servers: tcp and dtls servers on in-memory listeners with clients in flight, Stop from several goroutines, Serve returns. real: GET / observe registration against a handler that never answers, and Server.Discover against a silent peer, over UDP, DTLS-PSK, TCP and TLS loopback sockets with the library's own servers and Dial clients, interrupted by cancel, deadline, Close from 1-4 goroutines or server Stop; 5 real seconds of allowance; a failure counts only if it reproduces three times in a row. " + udpsrv.Rule + ". Non-trivial = the call was really blocked at the interruption (class block/really-blocked); all scenarios are distinct by construction of the key",
+		Rule:        "interrupt: a client connection (datagram / stream) in a synctest bubble runs one blocking operation (GET, block-wise POST, large POST, observe registration, observation cancel (from the application's goroutine and from inside the observe callback), ping, confirmable / non-confirmable one-way write with a small body or one that needs several blocks), optionally queued behind the parallel-request limiter or NSTART, against a scripted peer (silent, ACK only, unrelated traffic, Empty messages, first j blocks then silence, stops reading, closes); quiescence establishes that the call is blocked; then the interruption (context cancel, context deadline, local Close from 1-4 goroutines, peer close), before or during the call; after 5 virtual seconds and one housekeeping tick the call must have returned with an error; then Close (twice, concurrently): returns, done signal closed, every on-close callback ran exactly once (the first one registers 0-3 further callbacks while it runs, which must not disturb the others), other calls on the connection ended, no library goroutine left blocked. servers: tcp and dtls servers on in-memory listeners with clients in flight, Stop from several goroutines, Serve returns. real: GET / observe registration against a handler that never answers, and Server.Discover against a silent peer, over UDP, DTLS-PSK, TCP and TLS loopback sockets with the library's own servers and Dial clients, interrupted by cancel, deadline, Close from 1-4 goroutines or server Stop; 5 real seconds of allowance; a failure counts only if it reproduces three times in a row. " + udpsrv.Rule + ". Non-trivial = the call was really blocked at the interruption (class block/really-blocked); all scenarios are distinct by construction of the key",
 		Assumptions: []string{"connections built over a caller-owned socket without WithCloseSocket are out of domain", "write stalls are generated with a socket-like bounded buffer, not a zero-buffer pipe"},
 		Floor:       300,
 	}, engines...)
